@@ -1,5 +1,5 @@
 (* C05 — Frame segmentation.  Statements only; proofs are in C05/C05Proofs.v. *)
-From YV Require Import Common.Tac C05.C05Model C05.C05Proofs.
+From YV Require Import Common.Tac C05.C05Model C05.C05Proofs C05.C05Any.
 
 (* Whatever the chunking, if the bytes received so far are the wire images of frames fs
    followed by a strict prefix of one more frame, exactly fs was handed upward, in order,
@@ -31,3 +31,22 @@ Print Assumptions C05_send_refuses.
 Theorem C05_passthrough : forall chunks buf, run_recv false buf chunks = (chunks, buf).
 Proof. exact passthrough_thm. Qed.
 Print Assumptions C05_passthrough.
+
+(* ---- arbitrary byte streams: no assumption that the peer framed anything correctly ---- *)
+
+(* what is handed upward and what stays buffered depend only on the bytes received so far, not on how the
+   network split or coalesced them *)
+Theorem C05_chunking_irrelevant : forall c1 c2, concat c1 = concat c2 ->
+  run_recv true [] c1 = run_recv true [] c2.
+Proof. exact chunking_irrelevant_thm. Qed.
+Print Assumptions C05_chunking_irrelevant.
+
+(* "and nothing else", for every stream of bytes: the stream received is exactly the delivered frames, each behind
+   the 3-byte big-endian image of its own length, followed by the buffer; nothing is invented, dropped, reordered or
+   delivered twice; every delivered frame fits 24 bits; the buffer never holds a complete frame *)
+Theorem C05_every_byte_accounted : forall chunks fs r, bytes (concat chunks) ->
+  run_recv true [] chunks = (fs, r) ->
+  concat (map wire fs) ++ r = concat chunks /\ Forall (fun f => (lenN f < 16777216)%N) fs /\
+  run_recv true [] [r] = ([], r).
+Proof. exact conservation_thm. Qed.
+Print Assumptions C05_every_byte_accounted.
